@@ -14,6 +14,7 @@ import (
 	"github.com/enfein/mieru/v3/apis/server"
 	"github.com/enfein/mieru/v3/pkg/appctl/appctlpb"
 	mlog "github.com/enfein/mieru/v3/pkg/log"
+	"github.com/enfein/mieru/v3/pkg/protocol"
 	"google.golang.org/protobuf/proto"
 
 	"verifsim/simnet"
@@ -39,6 +40,7 @@ type World struct {
 	wg       sync.WaitGroup
 	checks   int64
 	healed   bool
+	acceptErrs int
 
 	fate *fatePlan
 }
@@ -221,6 +223,7 @@ func NewWorld(s *spec.RunSpec, res *spec.RunResult) (*World, error) {
 	w.Net.FateFn = w.fate.decide
 	w.Net.PolicyFn = w.streamPolicy
 
+	protocol.VerifRebaseGlobals() // process-wide replay caches were created under the real clock
 	w.srvNode = w.Net.Node(s.Server.IP)
 	w.srv = server.NewServer()
 	if err := w.srv.Store(&server.ServerConfig{Config: serverConfigPB(&s.Server), StreamListenerFactory: w.srvNode, PacketListenerFactory: w.srvNode}); err != nil {
